@@ -8,7 +8,7 @@
     regenerated from the engine (coq/gen/ZobristTables.v). *)
 From Coq Require Import ZArith NArith List Bool.
 From Texel Require Import Chess.Types Chess.Position Chess.PositionSpec Chess.PositionProofs3
-  Chess.PositionTheorems Chess.Fen Chess.PositionInst Chess.PositionExamples Chess.PositionSources.
+  Chess.PositionTheorems Chess.Fen Chess.PositionInst Chess.PositionExamples Chess.PositionSources Chess.PositionB.
 Import ListNotations.
 Local Open Scope N_scope.
 
@@ -50,18 +50,31 @@ Theorem C02_emptyBB_slot_not_restored_note :
 Proof. exact unmake_make_emptyBB_refuted. Qed.
 Print Assumptions C02_emptyBB_slot_not_restored_note.
 
-(** not yet proved: the bitboard-only (MoveGen::isLegal) and SEE variants restore the fields they
-    maintain (compared on ~11k probes per run by the correspondence check) *)
-Definition C02_unmake_make_B_statement : Prop :=
-  forall zk p m, Consistent zk p -> moveOk p m = true ->
-    let q := unMakeMoveB (fst (makeMoveB p m)) m (snd (makeMoveB p m)) in
-    squares q = squares p /\ (forall pc, 1 <= pc -> ptBB q pc = ptBB p pc) /\
-    whiteBB q = whiteBB p /\ blackBB q = blackBB p.
-Definition C02_unmake_make_SEE_statement : Prop :=
-  forall zk p m, Consistent zk p -> moveOk p m = true -> mpromote m = EMPTY ->
-    let q := unMakeSEEMove (fst (makeSEEMove p m)) m (snd (makeSEEMove p m)) in
-    squares q = squares p /\ (forall pc, 1 <= pc -> ptBB q pc = ptBB p pc) /\
-    whiteBB q = whiteBB p /\ blackBB q = blackBB p /\ whiteMove q = whiteMove p.
+(** the bitboard-only variants used by MoveGen::isLegal restore the board, the twelve piece
+    boards and the colour boards, and never touch any other field *)
+Theorem C02_unmake_make_B : forall zk, emptyKeysZero zk -> forall p m,
+  Consistent zk p -> moveOk p m = true ->
+  let q := unMakeMoveB (fst (makeMoveB p m)) m (snd (makeMoveB p m)) in
+  squares q = squares p /\ (forall pc, 1 <= pc -> ptBB q pc = ptBB p pc) /\
+  whiteBB q = whiteBB p /\ blackBB q = blackBB p /\ rest q = rest p.
+Proof. exact unmake_make_B. Qed.
+Print Assumptions C02_unmake_make_B.
+
+(** and makeMoveB computes exactly the board part of makeMove (what MoveGen::isLegal tests is
+    the position after the move) *)
+Theorem C02_makeMoveB_simulates : forall zk p m, moveOk p m = true ->
+  bbpart (fst (makeMoveB p m)) = bbpart (fst (makeMove zk p m)).
+Proof. exact makeMoveB_simulates. Qed.
+Print Assumptions C02_makeMoveB_simulates.
+
+(** the SEE variants *)
+Theorem C02_unmake_make_SEE : forall zk p m,
+  Consistent zk p -> moveOk p m = true ->
+  let q := unMakeSEEMove (fst (makeSEEMove p m)) m (snd (makeSEEMove p m)) in
+  squares q = squares p /\ (forall pc, 1 <= pc <= 12 -> ptBB q pc = ptBB p pc) /\
+  whiteBB q = whiteBB p /\ blackBB q = blackBB p /\ whiteMove q = whiteMove p /\ epSquare q = epSquare p.
+Proof. exact unmake_make_SEE. Qed.
+Print Assumptions C02_unmake_make_SEE.
 
 (** representation invariant: preserved by every operation, hence by every history of
     make / take-back / null-move style edits *)
